@@ -4,7 +4,7 @@
 From Coq Require Import Ascii String.
 From Coq Require Import List ZArith NArith Bool.
 From Coq.Strings Require Import Byte.
-From OgRek Require Import Base Utf8 Value Encoder Norm Insn PyVM.
+From OgRek Require Import Base Utf8 PyQuote Value Encoder Norm Insn PyVM.
 Import ListNotations.
 Open Scope N_scope.
 
@@ -12,7 +12,9 @@ Section PyVal.
   Variable c : econfig.
 
   (* text written with a unicode opcode *)
-  Definition uni_ok (s : bytes) : bool := (1 <=? e_proto c)%Z && len32 s && utf8_valid s.
+  Definition uni_ok (s : bytes) : bool :=
+    if (1 <=? e_proto c)%Z then len32 s && utf8_valid s
+    else match pyencode_raw_unicode_escape s with Some _ => true | None => false end.   (* V form *)
   Definition pv_unicode (s : bytes) : option pv := if uni_ok s then Some (PUni s) else None.
   (* text written with a Python-2 str opcode *)
   Definition pv_bytestring (s : bytes) : option pv :=
